@@ -29,6 +29,9 @@ def apply_op(c, op):
             return ("val", c[op[1]])
         if kind == "getd":
             return ("val", c.get(op[1], op[2]))
+        if kind == "getn":
+            r = c.get(op[1])
+            return ("none",) if r is None else ("val", r)
         if kind == "set":
             c[op[1]] = op[2]
             return ("done",)
@@ -80,12 +83,12 @@ class RefLRU:
 
     def apply(self, op):
         kind = op[0]
-        if kind in ("get", "getd"):
+        if kind in ("get", "getd", "getn"):
             k = op[1]
             if k in self.d:
                 self.touch(k)
                 return ("val", self.d[k])
-            return ("keyerror",) if kind == "get" else ("val", op[2])
+            return {"get": ("keyerror",), "getn": ("none",)}.get(kind) or ("val", op[2])
         if kind == "set":
             k, v = op[1], op[2]
             if k in self.d:
@@ -210,6 +213,8 @@ def g_op(op):
         return f"Get {g_N(op[1])}"
     if k == "getd":
         return f"GetD {g_N(op[1])} {g_Z(op[2])}"
+    if k == "getn":
+        return f"GetN {g_N(op[1])}"
     if k == "set":
         return f"Set_ {g_N(op[1])} {g_Z(op[2])}"
     if k == "del":
@@ -229,6 +234,8 @@ def g_out(o):
         return f"OVal {g_Z(o[1])}"
     if k == "keyerror":
         return "OKeyError"
+    if k == "none":
+        return "ONone"
     if k == "done":
         return "ODone"
     if k == "bool":
@@ -290,6 +297,17 @@ def gen_exhaustive_seqs(maxlen, keys):
             yield [(("set", o[1], 10 + i) if o[0] == "set" else o) for i, o in enumerate(seq)]
 
 
+def gen_exhaustive_uses(maxlen):
+    """what counts as a use: stores, c.get(k) (a use), `k in c` / len / items (not uses), over two keys"""
+    alpha = [("set", 1, None), ("set", 2, None), ("set", 3, None), ("getn", 1), ("getn", 2), ("contains", 1), ("contains", 2),
+             ("len",), ("items",)]
+    for n in range(1, maxlen + 1):
+        for seq in itertools.product(alpha, repeat=n):
+            if not any(o[0] == "set" for o in seq):
+                continue
+            yield [(("set", o[1], 10 + i) if o[0] == "set" else o) for i, o in enumerate(seq)]
+
+
 def gen_random_seq(rng, n, nkeys):
     ops = []
     for i in range(n):
@@ -299,8 +317,10 @@ def gen_random_seq(rng, n, nkeys):
             ops.append(("set", k, rng.choice([i + 10, 1, 2])))
         elif r < 0.55:
             ops.append(("get", k))
-        elif r < 0.65:
+        elif r < 0.61:
             ops.append(("getd", k, rng.choice([-1, 0, 99])))
+        elif r < 0.65:
+            ops.append(("getn", k))
         elif r < 0.75:
             ops.append(("del", k))
         elif r < 0.82:
@@ -427,7 +447,8 @@ def sig_for_sched(cap, acts, got):
 def run(ck: Check) -> None:
     ck.rule = (
         "sequential: exhaustive get/set/del sequences over keys {1,2,3} (len<=4 quick, <=5 thorough) x "
-        "capacities, plus seeded random sequences over all ten operations (len 30-200); schedules: exhaustive "
+        "capacities, exhaustive set / get-without-default / contains / len / items sequences (what is a use), construction with "
+        "capacities -3..4 and +-10^9 for both classes, plus seeded random sequences over all eleven operations (len 30-200); schedules: exhaustive "
         "interleavings of calls with ListBegin/ListNext of two iterators, plus random; a case is non-trivial when "
         "it performs at least one eviction or a listing step after a mutation; distinct = distinct (cap, ops)."
     )
@@ -451,12 +472,44 @@ def run(ck: Check) -> None:
     for ops in gen_exhaustive_seqs(maxlen, [1, 2, 3]):
         for cap in caps:
             seqs.append((cap, ops))
+    for ops in gen_exhaustive_uses(3 if ck.quick else 4):
+        for cap in ([2] if ck.quick else [1, 2]):
+            seqs.append((cap, ops))
     nrand = 300 if ck.quick else 3000
     for _ in range(nrand):
         cap = ck.rng.randrange(1, 5)
         seqs.append((cap, gen_random_seq(ck.rng, ck.rng.randrange(30, 201), ck.rng.randrange(2, 7))))
     ck.exhaustive = True
-    ck.extra["exhaustive_scope"] = f"get/set/del sequences len<={maxlen} over 3 keys, caps {caps}"
+    ck.extra["exhaustive_scope"] = (f"get/set/del sequences len<={maxlen} over 3 keys, caps {caps}; set/get-without-default/contains/"
+                                    f"len/items sequences len<={3 if ck.quick else 4}; construction with capacities -3..4 and +-10^9")
+
+    # -------- construction: ValueError exactly for a capacity below 1
+    mk_cases, mk_expected = [], []
+    for nm, cls in classes.items():
+        for n in list(range(-3, 5)) + [10 ** 9, -10 ** 9]:
+            try:
+                c0 = cls(n)
+                got = ("ok", len(c0), c0.capacity)
+            except ValueError:
+                got = ("valueerror",)
+            except Exception as e:  # noqa: BLE001
+                got = ("exc", type(e).__name__)
+            want = ("valueerror",) if n < 1 else ("ok", 0, n)
+            ck.note_case(("make", nm, n), nontrivial=n < 1)
+            ck.count("make." + ("rejected" if n < 1 else "accepted"))
+            if got != want:
+                ck.violation("impl-violation", f"make:{nm}:{'below-one' if n < 1 else 'positive'}",
+                             f"{nm}({n}): got {got}, expected {want}: a capacity below 1 is refused with ValueError, any other is accepted",
+                             {"type": "make", "class": nm, "cap": n, "got": list(got)})
+            if nm == "LRUCache" and abs(n) < 100:     # the model's capacity is a unary nat
+                mk_cases.append(g_Z(n))
+                mk_expected.append(g_bool(got == ("valueerror",)))
+    mm = ck.coq_mismatches("make", IMPORTS, "(fun n => match make n with None => true | Some c => negb (Z.eqb (Z.of_nat (cap c)) n) end)",
+                           "Bool.eqb", "Z", "bool", mk_cases, mk_expected, chunk=100)
+    ck.traces += len(mk_cases)
+    if mm:
+        ck.violation("correspondence", "make-correspondence", "model Lru.make and LRUCache.__init__ disagree on which capacities are refused",
+                     {"type": "make", "indices": mm, "broken": "correspondence Lru.make ~ LRUCache.__init__ (theorem C24_construction)"}, no_input=True)
 
     cases, expected, meta = [], [], []
     reported = 0
@@ -608,6 +661,14 @@ def replay(data) -> int:
         print("implementation:", got)
         print("verdict       :", verdict or "satisfies the property")
         bad = verdict is not None
+    elif case.get("type") == "make":
+        try:
+            classes[case["class"]](case["cap"])
+            got = "accepted"
+        except ValueError:
+            got = "ValueError"
+        print("constructor:", got)
+        bad = (got == "ValueError") != (case["cap"] < 1)
     elif case.get("type") == "stress":
         errs = stress(classes["ThreadSafeLRUCache"], case["threads"], case["cap"], case["seconds"], case["seed"])
         print("errors:", errs[:3])
